@@ -66,6 +66,8 @@ let rec gv_of strat_of_node = function
   | S.L [S.A "sym"; x] -> GSym (nat x)
   | S.L [S.A "node"; x] -> if strat_of_node (S.int x) then GNodeR (nat x) else GNodeA (nat x)
   | S.L (S.A "list" :: xs) -> GList (List.map (gv_of strat_of_node) xs)
+  (* a typed Go slice of objects: resolved member by member like a []interface{} *)
+  | S.L (S.A "tlist" :: xs) -> GList (List.map (gv_of strat_of_node) xs)
   | S.L (S.A "lres" :: xs) -> GLRes (List.map (gv_of strat_of_node) xs)
   (* typed Go slices ([]string, []int, []bool): resolved element by element like a []interface{} *)
   | S.L (S.A "tstrs" :: xs) -> GList (List.map (fun x -> GStr (z x)) xs)
